@@ -5,7 +5,7 @@
   ties to `lumicks/pylake/population/dwelltime.py` and `kymotracker/kymotrack.py` on every run.
   Formulas are read at `ℝ` (rounding is not modelled).
 -/
-import Verif.Lemmas.C15
+import Verif.Lemmas.C15D
 
 namespace Verif.C15
 open Verif
@@ -93,6 +93,27 @@ theorem discrete_sum_excluding_tmax_lt_one (comps : List (Comp ℝ)) (hne : comp
 
 -- non-vacuity: the `Admissible` instance above with `Δ = 0.25`
 example : (0 : ℝ) < 0.25 := by norm_num
+
+/-- `t_max = inf`, continuous model: without an upper limit the density the code evaluates
+    (`np.exp(-inf) = 0` in the window probability) integrates to one over `(tmin, ∞)` — improper integral, every
+    admissible parameter set. -/
+theorem continuous_integrates_to_one_unbounded (comps : List (Comp ℝ)) (hne : comps ≠ []) (hadm : Admissible comps)
+    (tmin : ℝ) : ∫ t in Set.Ioi tmin, pdfCont comps tmin none t = 1 := by
+  have hfun : (fun t => pdfCont comps tmin none t) = fun t => specPdfCont comps tmin none t :=
+    funext fun t => pdfCont_eq_spec comps hne hadm tmin t none fun m hm => by cases hm
+  rw [hfun]
+  exact integral_Ioi_specPdfCont comps hne hadm tmin
+
+/-- `t_max = inf`, discretised model: the probability masses of the observable dwell times
+    `tmin, tmin + Δ, tmin + 2Δ, …` form a series with sum one (geometric series in `x = e^{−Δ/τ}`). -/
+theorem discrete_sums_to_one_unbounded (comps : List (Comp ℝ)) (hne : comps ≠ []) (hadm : Admissible comps)
+    (tmin step : ℝ) (hs : 0 < step) :
+    HasSum (fun k : ℕ => pmfDisc comps tmin none step (tmin + (k : ℝ) * step)) 1 := by
+  have hfun : (fun k : ℕ => pmfDisc comps tmin none step (tmin + (k : ℝ) * step))
+      = fun k : ℕ => specPmfDisc comps tmin none step (tmin + (k : ℝ) * step) :=
+    funext fun k => pmfDisc_eq_spec comps hne hadm tmin step _ hs none fun m hm => by cases hm
+  rw [hfun]
+  exact hasSum_specPmfDisc comps hne hadm tmin step hs
 
 section pooled
 open MeasureTheory Set
@@ -217,6 +238,74 @@ theorem amplitude_constraint_simplex (n : Nat) (params : List Rat) (mask : Optio
 example : handleConstraint 2 [1/2, 1/2, 3, 5] none
     = some ⟨[true, true, true, true], 2, 0, [1/2, 1/2, 3, 5]⟩ := by decide +kernel
 
+/-- error branches of `_handle_amplitude_constraint`: it raises `ValueError` EXACTLY when the mask does not match the
+    parameter vector (or that vector does not have `2n` entries), the fixed amplitudes sum to more than one, or no
+    amplitude is free and the fixed ones miss one by more than `np.allclose`'s `1e-6 + 1e-5`.  In particular a single
+    free amplitude is never refused (it is determined so that the sum is one). -/
+theorem amplitude_constraint_refuses_iff (n : Nat) (params : List Rat) (mask : Option (List Bool)) :
+    handleConstraint n params mask = none ↔
+      ((fixedOf params mask).length ≠ params.length ∨ params.length ≠ 2 * n
+        ∨ 1 < ampSum n params (fixedOf params mask)
+        ∨ (countTrue n ((fixedOf params mask).map (!·)) = 0
+            ∧ (11 : Rat) / 1000000 < |ampSum n params (fixedOf params mask) - 1|)) :=
+  handleConstraint_none_iff n params mask
+
+example : handleConstraint 2 [1/2, 1/4, 3, 5] (some [true, true, false, false]) = none
+    ∧ handleConstraint 2 [3/4, 1/2, 3, 5] (some [true, true, false, false]) = none
+    ∧ handleConstraint 2 [1/2, 1/4, 3, 5] (some [true, false, false]) = none := by decide +kernel
+
+/-! ## What `_exponential_mle_optimize` hands to the optimiser and reports back -/
+
+/-- `reported_parameters_spec`: whenever `_handle_amplitude_constraint` accepts, for every answer `x` of the optimiser
+    with one value per fitted parameter: the reported vector `current_params[fitted_param_mask] = x` has `2n`
+    entries, holds `x` in the fitted slots (in order), leaves every parameter that is not fitted at the value the
+    constraint handling gave it, and the start vector handed over (`current_params[fitted_param_mask]`) put back
+    reproduces the initial guess. -/
+theorem reported_parameters_spec (n : Nat) (params : List Rat) (mask : Option (List Bool)) (c : Constraint)
+    (h : handleConstraint n params mask = some c) (x : List Rat) (hx : x.length = c.fitted.count true) :
+    (scatter c.params c.fitted x).length = 2 * n
+    ∧ gather (scatter c.params c.fitted x) c.fitted = x
+    ∧ (∀ i, c.fitted.getD i false = false → (scatter c.params c.fitted x)[i]? = c.params[i]?)
+    ∧ scatter c.params c.fitted (gather c.params c.fitted) = c.params := by
+  have hlen : c.fitted.length = c.params.length ∧ c.params.length = 2 * n := by
+    obtain ⟨hl1, hl2, _, hcase⟩ := handleConstraint_cases n params mask c h
+    rcases hcase with ⟨h1, rfl⟩ | ⟨_, rfl⟩
+    · obtain ⟨l1, l2⟩ := fixFree_length n params ((fixedOf params mask).map (!·))
+        (1 - ampSum n params (fixedOf params mask))
+      simp only [l1, l2, List.length_map, hl1, hl2, and_self]
+    · simp only [List.length_map, hl1, hl2, and_self]
+  exact ⟨by rw [scatter_length, hlen.2], gather_scatter _ _ _ hlen.1 hx,
+    fun i hi => scatter_fixed _ _ _ i hi, scatter_gather _ _⟩
+
+/-- derive → query: with exactly one free amplitude the amplitudes of the reported vector sum to one WHATEVER the
+    optimiser answers (none of them is among the fitted parameters) -/
+theorem one_free_amplitude_reported_on_simplex (n : Nat) (params : List Rat) (mask : Option (List Bool))
+    (c : Constraint) (h : handleConstraint n params mask = some c)
+    (h1 : countTrue n ((fixedOf params mask).map (!·)) = 1) (x : List Rat) :
+    ((scatter c.params c.fitted x).take n).sum = 1 := by
+  obtain ⟨_, _, hsum, hfit, _⟩ := amplitude_constraint_one_free n params mask c h h1
+  rw [take_scatter_of_countTrue_zero n c.params c.fitted x hfit, hsum]
+
+example : handleConstraint 2 [1/4, 1/8, 3, 5] (some [true, false, false, true])
+      = some ⟨[false, false, true, false], 0, 1, [1/4, 3/4, 3, 5]⟩
+    ∧ scatter [1/4, 3/4, 3, 5] [false, false, true, false] [(7 : Rat)] = [1/4, 3/4, 7, 5]
+    ∧ gather [(1/4 : Rat), 3/4, 3, 5] [false, false, true, false] = [3] := by decide +kernel
+
+/-- option `initial_guess=None` (every public `DwelltimeModel` fit): the default guess has `2n` entries, its
+    amplitudes sum to one (the search starts on the simplex) and its lifetimes average to the sample mean -/
+theorem default_guess_spec (n : Nat) (hn : 1 ≤ n) (m : Rat) :
+    (defaultGuess n m).length = 2 * n
+    ∧ ((defaultGuess n m).take n).sum = 1
+    ∧ ((defaultGuess n m).drop n).sum / (n : Rat) = m :=
+  defaultGuess_spec' n hn m
+
+/-- derive → derive: `_handle_amplitude_constraint` never refuses the default guess when no parameter is fixed -/
+theorem default_guess_accepted (n : Nat) (hn : 1 ≤ n) (m : Rat) :
+    (handleConstraint n (defaultGuess n m) none).isSome = true :=
+  default_guess_accepted' n hn m
+
+example : defaultGuess 3 2 = [1/3, 1/3, 1/3, 1, 2, 3] := by decide +kernel
+
 /-! ## One component, no upper limit -/
 
 /-- core `one_component_mle`: for a one-component model without upper limit (any amplitude value, per-
@@ -234,6 +323,25 @@ theorem one_component_mle (a : ℝ) (ps : List (ℝ × ℝ)) (hne : ps ≠ [])
     exact_mod_cast this
   rw [logLik_one, logLik_one, mleTau_real]
   exact profile_max _ _ tau hn hS ht
+
+/-- `one_component_mle` under the lifetime search bounds: over any search interval `[lo, hi]` (`0 < lo ≤ hi`) the
+    log-likelihood of the one-component model without upper limit is maximal at the closed form CLIPPED to the
+    interval, `max lo (min hi τ̂)` — the profile is increasing up to `τ̂` and decreasing from there on.  (This is the
+    value the fitted lifetime is held to when `τ̂` falls outside `_exponential_mle_bounds`, e.g. when the sample mean
+    is below `1.1·tmin`.) -/
+theorem one_component_mle_within_bounds (a : ℝ) (ps : List (ℝ × ℝ)) (hne : ps ≠ [])
+    (hS : 0 < (ps.map fun p => p.1 - p.2).sum) (lo hi : ℝ) (hlo : 0 < lo) (hlh : lo ≤ hi)
+    (tau : ℝ) (h1 : lo ≤ tau) (h2 : tau ≤ hi) :
+    logLik [⟨a, tau⟩] (ps.map openObs)
+      ≤ logLik [⟨a, max lo (min hi (mleTau (ps.map openObs) (ps.length : ℝ)))⟩] (ps.map openObs) := by
+  have hn : 0 < (ps.length : ℝ) := by
+    have : 0 < ps.length := List.length_pos_iff.2 hne
+    exact_mod_cast this
+  rw [logLik_one, logLik_one, mleTau_real]
+  exact profile_max_clamped _ _ lo hi tau hn hS hlo hlh h1 h2
+
+-- non-vacuity: the closed form 1.25 of the data below lies above the interval [0.05, 1]: the maximum is at `hi`
+example : (0 : ℝ) < 0.05 ∧ (0.05 : ℝ) ≤ 1 ∧ (0.05 : ℝ) ≤ 0.7 ∧ (0.7 : ℝ) ≤ 1 := by norm_num
 
 /-- with a common minimum observable time the estimate is `sample mean − tmin` (the closed form of the
     property text) -/
@@ -265,6 +373,14 @@ example : extract true false
      ⟨0, 10, 1/4, [5], some (1/4)⟩, ⟨1, 8, 1/2, [6, 7], some (1/2)⟩]
     = some ([⟨1/4, 1/4, 5/2, 1/4⟩, ⟨3/2, 1/2, 4, 1/2⟩], true) := by decide +kernel
 
+-- the hypothesis `Consistent` of `extraction_spec` is NECESSARY (kernel-checked witness): were two tracks of one
+-- kymograph to disagree on its geometry, the rows would carry the geometry of the group's first track
+example : ∃ rows rem, extract false false
+      [⟨0, 10, 1/4, [1, 2], some (1/4)⟩, ⟨0, 8, 1/2, [1, 3], some (1/2)⟩] = some (rows, rem)
+    ∧ ¬ (rows.map some).Perm (([⟨0, 10, 1/4, [1, 2], some (1/4)⟩, ⟨0, 8, 1/2, [1, 3], some (1/2)⟩].filter
+          (keep false)).map specRow?) :=
+  ⟨[⟨1/4, 1/4, 5/2, 1/4⟩, ⟨1, 1/2, 5/2, 1/4⟩], false, by decide +kernel, by decide +kernel⟩
+
 /-- the extraction refuses (the code raises `RuntimeError`) exactly when some track that would contribute
     a row carries no minimum observable duration -/
 theorem extraction_refuses_iff (excl : Bool) (tracks : List Track) :
@@ -278,6 +394,83 @@ theorem extraction_removed_flag (excl om : Bool) (tracks : List Track) (rows : L
   extract_removed' excl om tracks rows rem h
 
 example : extract false false [⟨0, 10, 1/4, [1, 2], none⟩] = none := by decide +kernel
+
+/-! ### legacy mode `observed_minimum=True` -/
+
+/-- option `observed_minimum=True` (legacy): the rows are — up to the stacking order of the kymographs — one per track
+    with positive duration (not touching the first/last line when ambiguous dwells are excluded), holding the track
+    duration, `groupMin`: the shortest such dwell of the track's OWN kymograph as minimum observation time, the
+    kymograph's total duration and the line time. -/
+theorem extraction_spec_observed_minimum (excl : Bool) (tracks : List Track) (hc : Consistent tracks)
+    (rows : List Row) (rem : Bool) (h : extract excl true tracks = some (rows, rem)) :
+    rows.Perm ((tracks.filter (keep excl)).map (specRowOm excl tracks)) :=
+  extract_rows_perm_om excl tracks hc rows rem h
+
+/-- `groupMin` (computed by the model as a running minimum, like `np.min`) is the least dwell time among the kept
+    tracks of the same kymograph: attained, and a lower bound — so every dwell handed over lies at or above the
+    minimum observation time handed over with it. -/
+theorem observed_minimum_is_least (excl : Bool) (tracks : List Track) (t : Track) (ht : t ∈ tracks)
+    (hk : keep excl t = true) :
+    (∃ u ∈ tracks, u.kymo = t.kymo ∧ keep excl u = true ∧ groupMin excl tracks t.kymo = specDuration u)
+    ∧ ∀ u ∈ tracks, u.kymo = t.kymo → keep excl u = true → groupMin excl tracks t.kymo ≤ specDuration u :=
+  groupMin_least excl tracks t ht hk
+
+/-- in the legacy mode the stored per-track minimum is never consulted: the extraction cannot refuse -/
+theorem extraction_observed_minimum_never_refuses (excl : Bool) (tracks : List Track) :
+    extract excl true tracks ≠ none :=
+  extract_om_ne_none excl tracks
+
+example : extract true true
+    [⟨0, 10, 1/4, [0, 1, 2], none⟩, ⟨1, 8, 1/2, [2, 3, 5], none⟩, ⟨0, 10, 1/4, [3, 4], none⟩,
+     ⟨0, 10, 1/4, [5, 8], some (1/4)⟩, ⟨1, 8, 1/2, [1, 2], none⟩]
+    = some ([⟨1/4, 1/4, 5/2, 1/4⟩, ⟨3/4, 1/4, 5/2, 1/4⟩, ⟨3/2, 1/2, 4, 1/2⟩, ⟨1/2, 1/2, 4, 1/2⟩], false) := by
+  decide +kernel
+
+/-! ### `fit_binding_times`: options left out, error branches, what reaches the model -/
+
+/-- options left out (`None`): `fit_binding_times(n, exclude_ambiguous_dwells=…)` behaves exactly like
+    `observed_minimum=True, discrete_model=False` — the LEGACY minimum-time mode and the continuous model — except
+    for the two warnings it issues. -/
+theorem fit_binding_defaults (nComp : Nat) (excl : Bool) (tracks : List Track) :
+    fitBindingTimes nComp excl none none tracks
+      = (fitBindingTimes nComp excl (some true) (some false) tracks).map
+          fun c => { c with warnObservedMin := true, warnDiscrete := true } :=
+  fitBindingTimes_defaults nComp excl tracks
+
+/-- derive → query through the public entry point: whenever `fit_binding_times(…, observed_minimum=False, …)` gets as
+    far as constructing the model, the group is not empty, `n_components ∈ {1, 2}`, at least one row is handed over,
+    the rows are (up to stacking order) exactly one per qualifying track with the track duration, the track's OWN
+    minimum observable duration, the kymograph's total duration and the line time, the zero-dwell warning is issued
+    exactly when a non-excluded track has zero duration, and the time step reaches the model iff `discrete_model` is
+    `True`. -/
+theorem fit_binding_rows_spec (nComp : Nat) (excl : Bool) (disc : Option Bool) (tracks : List Track)
+    (hc : Consistent tracks) (c : FitCall)
+    (h : fitBindingTimes nComp excl (some false) disc tracks = .ok c) :
+    tracks ≠ [] ∧ (nComp = 1 ∨ nComp = 2) ∧ c.rows ≠ []
+    ∧ (c.rows.map some).Perm ((tracks.filter (keep excl)).map specRow?)
+    ∧ c.removedZeros = tracks.any (zeroDwell excl)
+    ∧ c.stepHanded = disc.getD false := by
+  obtain ⟨h1, h2, h3, hext, _, h6, _, _⟩ := fitBindingTimes_ok nComp excl (some false) disc tracks c h
+  simp only [Option.getD_some] at hext
+  exact ⟨h1, h2, h3, extraction_spec excl tracks hc c.rows c.removedZeros hext,
+    extraction_removed_flag excl false tracks c.rows c.removedZeros hext, h6⟩
+
+/-- … and with `observed_minimum` left out (or `True`) the minimum observation time handed over is the shortest kept
+    dwell of the track's kymograph, not the track's own minimum (the documented legacy behaviour). -/
+theorem fit_binding_rows_legacy (nComp : Nat) (excl : Bool) (disc : Option Bool) (tracks : List Track)
+    (hc : Consistent tracks) (c : FitCall)
+    (h : fitBindingTimes nComp excl none disc tracks = .ok c) :
+    c.observedMin = true ∧ c.warnObservedMin = true
+    ∧ c.rows.Perm ((tracks.filter (keep excl)).map (specRowOm excl tracks)) := by
+  obtain ⟨_, _, _, hext, h5, _, h7, _⟩ := fitBindingTimes_ok nComp excl none disc tracks c h
+  simp only [Option.getD_none] at hext h5
+  exact ⟨h5, h7, extraction_spec_observed_minimum excl tracks hc c.rows c.removedZeros hext⟩
+
+example : fitBindingTimes 1 true none none [⟨0, 10, 1/4, [1, 2, 3], some (1/4)⟩, ⟨0, 10, 1/4, [4, 4], none⟩]
+      = .ok ⟨[⟨1/2, 1/2, 5/2, 1/4⟩], true, true, false, true, true⟩
+    ∧ fitBindingTimes 3 true none none [⟨0, 10, 1/4, [1, 2, 3], some (1/4)⟩] = .error "ValueError"
+    ∧ fitBindingTimes 1 true (some false) (some true) [⟨0, 10, 1/4, [1, 2, 3], some (1/4)⟩]
+      = .ok ⟨[⟨1/2, 1/4, 5/2, 1/4⟩], false, false, true, false, false⟩ := by decide +kernel
 
 /-! ## The analytic gradient (ext) -/
 
@@ -332,13 +525,161 @@ example : (1.0e-14 : ℝ) ≤ 0.3 ∧ (10 : ℝ) / 0.5 < 1.0e10 := by norm_num
 -- (`_exponential_mle_bounds`): a rare component sitting on the amplitude bound is covered by the two theorems above
 example (a : ℝ) (h : (1.0e-9 : ℝ) ≤ a) : (1.0e-14 : ℝ) ≤ a := le_trans (by norm_num) h
 
-/-
-  ext `gradient_discrete_correct` — NOT PROVED (stated, left outside):
-    for the discretised model (`o.step = some Δ`, `Δ > 0`, `tmin − Δ < tmax`), under the same clip/mask
-    hypotheses, `HasDerivAt (fun a => logLikObs (pre ++ ⟨a, τ⟩ :: post) o) ((gradObsDisc …).getD pre.length (0,0)).1 a0`
-    and the analogous statement in `τ` with `.2`.
-  Covered instead by the correspondence of `gradObsDisc` with the code's Jacobian and by the 6th-order numerical
-  gradient of the oracle on every `lik` case.
--/
+/-- ext `gradient_discrete_correct` (amplitudes): for the DISCRETISED model (`Δ > 0`, `tmin − Δ < tmax`, finite or
+    infinite upper limit), any number of components, any position of the component: the derivative of the
+    log-likelihood of one observation with respect to a component's amplitude is the expression the code computes
+    (`dlognorm_damp`, `dlogamp_damp` collapsed through `logsumexp`) — provided the amplitude clip and the
+    `t_max/τ < 1e10` mask are inactive. -/
+theorem gradient_discrete_correct_amp (pre post : List (Comp ℝ)) (a0 tau t tmin : ℝ) (tmax : Option ℝ) (step : ℝ)
+    (hs : 0 < step)
+    (hadm : Admissible (pre ++ ⟨a0, tau⟩ :: post))
+    (hclip : ∀ c ∈ pre ++ ⟨a0, tau⟩ :: post, (1.0e-14 : ℝ) ≤ c.amp)
+    (hwin : ∀ m, tmax = some m → tmin - step < m)
+    (hvalid : ∀ c ∈ pre ++ ⟨a0, tau⟩ :: post, ∀ m, tmax = some m → m / c.tau < (1.0e10 : ℝ)) :
+    HasDerivAt (fun a => logLikObs (pre ++ ⟨a, tau⟩ :: post) ⟨t, tmin, tmax, some step⟩)
+      (((gradObsDisc (pre ++ ⟨a0, tau⟩ :: post) t tmin tmax step).getD pre.length (0, 0)).1) a0 := by
+  have hne : ∀ a : ℝ, pre ++ (⟨a, tau⟩ : Comp ℝ) :: post ≠ [] := fun a => by simp
+  have h0 := hadm ⟨a0, tau⟩ (by simp)
+  rw [gradObsDisc_eq_spec _ (hne a0) hadm hclip t tmin tmax step hs hwin hvalid, getD_map_mid]
+  have hw : ∀ c ∈ pre ++ ⟨a0, tau⟩ :: post, specE tmax c.tau < Real.exp (-(tmin - step) / c.tau) :=
+    fun c hc => specE_lt (tmin - step) tmax c.tau (hadm c hc).2 hwin
+  refine (hasDerivAt_logpmf_amp pre post a0 tau t tmin tmax step (specPd_pos _ (hne a0) hadm step t hs)
+    (specNormDisc_pos _ (hne a0) hadm tmin step hs tmax hw)).congr_of_eventuallyEq ?_
+  filter_upwards [Ioi_mem_nhds h0.1] with a ha
+  exact logLikObs_eq_log_specDisc _ (hne a) (admissible_replace pre post _ ⟨a, tau⟩ hadm ⟨ha, h0.2⟩)
+    tmin step t hs tmax hwin
+
+/-- ext `gradient_discrete_correct` (lifetimes): the same for the derivative with respect to a component's lifetime
+    — `tau_factor` (the `Δ·e^{−Δ/τ}` term of the discretisation factor and the boundary term
+    `t_max·e^{−t_max/τ}` included) and `dlogtauterm_dtau`. -/
+theorem gradient_discrete_correct_tau (pre post : List (Comp ℝ)) (a tau0 t tmin : ℝ) (tmax : Option ℝ) (step : ℝ)
+    (hs : 0 < step)
+    (hadm : Admissible (pre ++ ⟨a, tau0⟩ :: post))
+    (hclip : ∀ c ∈ pre ++ ⟨a, tau0⟩ :: post, (1.0e-14 : ℝ) ≤ c.amp)
+    (hwin : ∀ m, tmax = some m → tmin - step < m)
+    (hvalid : ∀ c ∈ pre ++ ⟨a, tau0⟩ :: post, ∀ m, tmax = some m → m / c.tau < (1.0e10 : ℝ)) :
+    HasDerivAt (fun tau => logLikObs (pre ++ ⟨a, tau⟩ :: post) ⟨t, tmin, tmax, some step⟩)
+      (((gradObsDisc (pre ++ ⟨a, tau0⟩ :: post) t tmin tmax step).getD pre.length (0, 0)).2) tau0 := by
+  have hne : ∀ tau : ℝ, pre ++ (⟨a, tau⟩ : Comp ℝ) :: post ≠ [] := fun tau => by simp
+  have h0 := hadm ⟨a, tau0⟩ (by simp)
+  rw [gradObsDisc_eq_spec _ (hne tau0) hadm hclip t tmin tmax step hs hwin hvalid, getD_map_mid]
+  have hw : ∀ c ∈ pre ++ ⟨a, tau0⟩ :: post, specE tmax c.tau < Real.exp (-(tmin - step) / c.tau) :=
+    fun c hc => specE_lt (tmin - step) tmax c.tau (hadm c hc).2 hwin
+  refine (hasDerivAt_logpmf_tau pre post a tau0 t tmin tmax step h0.2 (specPd_pos _ (hne tau0) hadm step t hs)
+    (specNormDisc_pos _ (hne tau0) hadm tmin step hs tmax hw)).congr_of_eventuallyEq ?_
+  filter_upwards [Ioi_mem_nhds h0.2] with tau htau
+  exact logLikObs_eq_log_specDisc _ (hne tau) (admissible_replace pre post _ ⟨a, tau⟩ hadm ⟨h0.1, htau⟩)
+    tmin step t hs tmax hwin
+
+-- non-vacuity: `Δ = 0.25`, window `0.5 − 0.25 < 10`, the `Admissible` instance above, clip and mask as before
+example : (0 : ℝ) < 0.25 ∧ (0.5 : ℝ) - 0.25 < 10 ∧ (1.0e-14 : ℝ) ≤ 0.3 ∧ (10 : ℝ) / 0.5 < 1.0e10 := by norm_num
+
+/-! ### the two hypotheses of the gradient theorems: established by the search bounds, and necessary -/
+
+/-- the code ESTABLISHES the mask hypothesis: for every lifetime inside the search interval of
+    `_exponential_mle_bounds` (`τ ≥ max(0.1·min tmin, 1e-8)`) and every upper limit `m ≤ max tmax`, the mask
+    `t_max/τ < 1e10` is inactive as soon as the limits span less than nine decades (`max tmax < 1e9 · min tmin`). -/
+theorem mask_inactive_within_bounds (minTmin maxTmax tau m : ℝ) (ha : 0 < minTmin)
+    (hspan : maxTmax < 1.0e9 * minTmin) (hm : m ≤ maxTmax)
+    (htau : (tauBounds minTmin maxTmax).1 ≤ tau) : m / tau < (1.0e10 : ℝ) := by
+  have hlo : minTmin * 0.1 ≤ (tauBounds minTmin maxTmax).1 := by
+    simp only [tauBounds, RealLike.lt, decide_eq_true_eq]
+    split
+    · rename_i h; norm_num at h ⊢; linarith
+    · norm_num
+  have ht : 0 < tau := by nlinarith
+  rw [div_lt_iff₀ ht]
+  norm_num at hspan hlo ⊢
+  nlinarith
+
+example : (0 : ℝ) < 0.5 ∧ (20 : ℝ) < 1.0e9 * 0.5 := by norm_num
+
+/-- the mask hypothesis is NECESSARY for the exactness of the lifetime derivative: when the mask is active the code
+    sets the boundary term `t_max·e^{−t_max/τ}` of the normalisation to zero although it is positive (by less than
+    `t_max·e^{−1e10}`, which is why the code can afford it) -/
+theorem mask_active_drops_boundary_term (m tau : ℝ) (hm : 0 < m) (h : (1.0e10 : ℝ) ≤ m / tau) :
+    maxBound (some m) tau = 0 ∧ 0 < specME (some m) tau := by
+  constructor
+  · simp only [maxBound, RealLike.lt, decide_eq_true_eq]
+    rw [if_neg (not_lt.2 h)]
+    norm_num
+  · simp only [specME]
+    exact mul_pos hm (Real.exp_pos _)
+
+/-- the clip hypothesis is NECESSARY as well: below `1e-14` the Jacobian is evaluated at the amplitude `1e-14`, not at the
+    amplitude it was asked about (the optimiser never goes there: its amplitude bound is `1e-9`) -/
+theorem clip_active_replaces_amplitude (a : ℝ) (h : a < (1.0e-14 : ℝ)) : clipAmp a = (1.0e-14 : ℝ) ∧ clipAmp a ≠ a := by
+  have hc : clipAmp a = (1.0e-14 : ℝ) := by
+    simp only [clipAmp, RealLike.lt, decide_eq_true_eq]
+    rw [if_pos h]
+  exact ⟨hc, by rw [hc]; exact (ne_of_lt h).symm⟩
+
+/-! ## The Jacobian handed to the optimiser is the gradient of the negative log-likelihood -/
+
+/-- one observation, either variant: the per-observation amplitude / lifetime term of component `pre.length` is the
+    derivative of that observation's log-likelihood (`GradOk`: proper window, mask inactive) -/
+theorem gradObs_correct_amp (pre post : List (Comp ℝ)) (a0 tau : ℝ) (o : Obs ℝ)
+    (hadm : Admissible (pre ++ ⟨a0, tau⟩ :: post))
+    (hclip : ∀ c ∈ pre ++ ⟨a0, tau⟩ :: post, (1.0e-14 : ℝ) ≤ c.amp)
+    (hok : GradOk (pre ++ ⟨a0, tau⟩ :: post) o) :
+    HasDerivAt (fun a => logLikObs (pre ++ ⟨a, tau⟩ :: post) o)
+      (((gradObs (pre ++ ⟨a0, tau⟩ :: post) o).getD pre.length (0, 0)).1) a0 := by
+  obtain ⟨t, tmin, tmax, step⟩ := o
+  cases step with
+  | none => exact gradient_continuous_correct_amp pre post a0 tau t tmin tmax hadm hclip hok.1 hok.2
+  | some d => exact gradient_discrete_correct_amp pre post a0 tau t tmin tmax d hok.1 hadm hclip hok.2.1 hok.2.2
+
+theorem gradObs_correct_tau (pre post : List (Comp ℝ)) (a tau0 : ℝ) (o : Obs ℝ)
+    (hadm : Admissible (pre ++ ⟨a, tau0⟩ :: post))
+    (hclip : ∀ c ∈ pre ++ ⟨a, tau0⟩ :: post, (1.0e-14 : ℝ) ≤ c.amp)
+    (hok : GradOk (pre ++ ⟨a, tau0⟩ :: post) o) :
+    HasDerivAt (fun tau => logLikObs (pre ++ ⟨a, tau⟩ :: post) o)
+      (((gradObs (pre ++ ⟨a, tau0⟩ :: post) o).getD pre.length (0, 0)).2) tau0 := by
+  obtain ⟨t, tmin, tmax, step⟩ := o
+  cases step with
+  | none => exact gradient_continuous_correct_tau pre post a tau0 t tmin tmax hadm hclip hok.1 hok.2
+  | some d => exact gradient_discrete_correct_tau pre post a tau0 t tmin tmax d hok.1 hadm hclip hok.2.1 hok.2.2
+
+/-- `jacobian_is_gradient` (amplitude block): for ANY list of observations (continuous and discretised ones, each
+    with its own limits), any number of components: entry `i` of the vector
+    `_exponential_mixture_log_likelihood_jacobian` returns — the per-observation terms summed over the observations
+    (`np.sum(unsummed_gradient, axis=1)`), negated, amplitudes first — is the derivative of the NEGATIVE
+    log-likelihood `_exponential_mixture_log_likelihood` with respect to the amplitude of component `i`
+    (the other parameters fixed): the gradient handed to SLSQP is the gradient of the cost function. -/
+theorem jacobian_is_gradient_amp (pre post : List (Comp ℝ)) (a0 tau : ℝ) (obs : List (Obs ℝ))
+    (hadm : Admissible (pre ++ ⟨a0, tau⟩ :: post))
+    (hclip : ∀ c ∈ pre ++ ⟨a0, tau⟩ :: post, (1.0e-14 : ℝ) ≤ c.amp)
+    (hok : ∀ o ∈ obs, GradOk (pre ++ ⟨a0, tau⟩ :: post) o) :
+    HasDerivAt (fun a => negLogLik (pre ++ ⟨a, tau⟩ :: post) obs)
+      ((jacobian (pre ++ ⟨a0, tau⟩ :: post) obs).getD pre.length 0) a0 := by
+  rw [jacobian_getD_amp _ obs pre.length (by simp)]
+  exact hasDerivAt_negLogLik (fun a => pre ++ ⟨a, tau⟩ :: post) obs _ a0
+    fun o ho => gradObs_correct_amp pre post a0 tau o hadm hclip (hok o ho)
+
+/-- `jacobian_is_gradient` (lifetime block): entry `n + i` is the derivative of the negative log-likelihood with
+    respect to the lifetime of component `i`. -/
+theorem jacobian_is_gradient_tau (pre post : List (Comp ℝ)) (a tau0 : ℝ) (obs : List (Obs ℝ))
+    (hadm : Admissible (pre ++ ⟨a, tau0⟩ :: post))
+    (hclip : ∀ c ∈ pre ++ ⟨a, tau0⟩ :: post, (1.0e-14 : ℝ) ≤ c.amp)
+    (hok : ∀ o ∈ obs, GradOk (pre ++ ⟨a, tau0⟩ :: post) o) :
+    HasDerivAt (fun tau => negLogLik (pre ++ ⟨a, tau⟩ :: post) obs)
+      ((jacobian (pre ++ ⟨a, tau0⟩ :: post) obs).getD
+        ((pre ++ (⟨a, tau0⟩ : Comp ℝ) :: post).length + pre.length) 0) tau0 := by
+  rw [jacobian_getD_tau _ obs pre.length (by simp)]
+  exact hasDerivAt_negLogLik (fun tau => pre ++ ⟨a, tau⟩ :: post) obs _ tau0
+    fun o ho => gradObs_correct_tau pre post a tau0 o hadm hclip (hok o ho)
+
+-- non-vacuity: a continuous and a discretised observation (the latter without upper limit) meet `GradOk`
+example : ∀ o ∈ ([⟨2, 0.5, some 10, none⟩, ⟨1.5, 0.5, none, some 0.25⟩] : List (Obs ℝ)),
+    GradOk [⟨0.3, 0.5⟩, ⟨0.7, 4⟩] o := by
+  intro o ho
+  simp only [List.mem_cons, List.not_mem_nil, or_false] at ho
+  rcases ho with rfl | rfl
+  · refine ⟨fun m hm => ?_, fun c hc m hm => ?_⟩
+    · cases hm; norm_num
+    · cases hm
+      simp only [List.mem_cons, List.not_mem_nil, or_false] at hc
+      rcases hc with rfl | rfl <;> norm_num
+  · refine ⟨by norm_num, fun m hm => ?_, fun c _ m hm => ?_⟩ <;> cases hm
 
 end Verif.C15
